@@ -159,9 +159,11 @@ impl ImageBuilder {
         // Do not unwrap on the from_data line, because panic will poison GLOBAL_OPT.
         let tree = {
             let svg_data = self.svg_builder.to_str(qr);
+            verif_point!("img:svg_text");
             let tree = usvg::Tree::from_data(svg_data.as_bytes(), &opt);
             tree.expect("Failed to parse SVG")
         };
+        verif_point!("img:parsed");
 
         let fit_to = match (self.fit_width, self.fit_height) {
             (Some(w), Some(h)) => usvg::FitTo::Size(w, h),
@@ -175,6 +177,7 @@ impl ImageBuilder {
             .unwrap_or(tree.size.to_screen_size());
         let mut pixmap =
             tiny_skia::Pixmap::new(size.width(), size.height()).expect("Failed to create pixmap");
+        verif_point!("img:pixmap_allocated");
         resvg::render(
             &tree,
             fit_to,
@@ -182,6 +185,7 @@ impl ImageBuilder {
             pixmap.as_mut(),
         )
         .unwrap();
+        verif_point!("img:rendered");
 
         pixmap
     }
